@@ -876,6 +876,8 @@ def run(ctx):
             extra_oracles2.vine_likelihood_border(ctx)
             extra_oracles2.vine_api(ctx, ('short-table',))
             extra_oracles2.vine_copy_likelihood(ctx)
+            from .. import extra_oracles3
+            extra_oracles3.vine_round6(ctx, 'C17')
         except Exception as ex:       # the oracle itself must never hide the result of the check proper
             ctx.obligation('oracle:extra:raised', False, 'correspondence', repr(ex))
             ctx.violation('oracle:extra:raised:' + type(ex).__name__, 'history oracle raised ' + repr(ex), {'repro': '# see tools/vf/extra_oracles.py'})
